@@ -117,6 +117,13 @@ def two_app_family():
     return [{'spec0': {'apps': [{'id': 'vapp', 'models': [v0]}, {'id': 'lapp', 'models': [l0]}]},
              'spec1': {'apps': [{'id': 'vapp', 'models': [v1]}, {'id': 'lapp', 'models': [l1]}]},
              'muts': [add('Alpha', 'b')], 'extra_evolutions': {'lapp': [add('Thing', 'u')]},
+             'rows': False, 'family': 'two-apps-not-alphabetical'},
+            # ... and the second app's only pending evolution concerns a model that is new in this release (its table is
+            # created from the model, the evolution is merely recorded): nothing of the first app runs under its name
+            {'spec0': {'apps': [{'id': 'vapp', 'models': [v0]}, {'id': 'lapp', 'models': [l0]}]},
+             'spec1': {'apps': [{'id': 'vapp', 'models': [v1]},
+                                {'id': 'lapp', 'models': [l0, m('lapp', 'Shelf', [fld('note', 'IntegerField', null=True)])]}]},
+             'muts': [add('Alpha', 'b')], 'extra_evolutions': {'lapp': [add('Shelf', 'note')]},
              'rows': False, 'family': 'two-apps-not-alphabetical'}]
 
 
